@@ -2,6 +2,7 @@ package batching
 
 import (
 	"context"
+	"sync"
 
 	"reduction.dev/reduction/util/vhook"
 )
@@ -17,6 +18,7 @@ type ReorderFetcher[T, R any] struct {
 	fetchBatch BatchFetcher[T, R]
 	errChan    chan error
 	buffer     *ReorderBuffer[[]R]
+	flushMu    sync.Mutex // Serializes flushing a batch with reserving its sequence number
 }
 
 type NewReorderFetcherParams[T, R any] struct {
@@ -71,16 +73,22 @@ func (d *ReorderFetcher[T, R]) Flush(ctx context.Context) {
 
 // flush the current batch and then asynchronously run the `FetchBatch` callback.
 func (d *ReorderFetcher[T, R]) flush(ctx context.Context, token BatchToken) {
+	// Taking the batch and reserving its output slot must be one step: the
+	// timeout goroutine and the Add caller both flush, and batches have to be
+	// sequenced in the order they were taken from the batcher.
+	d.flushMu.Lock()
 	events := d.batcher.Flush(token)
 	if d.batcher == nil {
 		panic("batcher became nil")
 	}
 	if len(events) == 0 {
+		d.flushMu.Unlock()
 		return
 	}
 
 	vhook.At("batching.fetcher.between-flush-and-reserve", d)
 	seqNum := d.buffer.Reserve()
+	d.flushMu.Unlock()
 	go func() {
 		result, err := d.fetchBatch(ctx, events)
 		if err != nil {
